@@ -201,6 +201,14 @@ class DescriptorTransaction(_TransactionBase):
         if key in updates_dict:
             msg = f'State {key} already in updated set!'
             raise ValueError(msg)
+        # a state that already exists in mdib cannot be added again (the commit would fail after it has changed the mdib)
+        if state_container.is_context_state:
+            exists = key in self._mdib.context_states.handle
+        else:
+            exists = key in self._mdib.states.descriptor_handle
+        if exists:
+            msg = f'Cannot add state {key}, it already exists in mdib!'
+            raise ValueError(msg)
 
         # set reference to descriptor
         state_container.descriptor_container = self.descriptor_updates[state_container.DescriptorHandle].new
